@@ -63,6 +63,8 @@ M = [
  ("C17", "noiseless_bk", "R6", "libtfhe/lwe-bootstrapping-functions.cpp", r"s/        tGswSymEncryptInt(&bk->bk\[i\], kin\[i\], alpha, rgsw_key);/        tGswClear(\&bk->bk[i], bk_params); tGswAddMuIntH(\&bk->bk[i], kin[i], bk_params); (void) alpha;/", "bootstrapping key rows are trivial (unmasked) encodings of the LWE key bits"),
  ("C17", "encrypt_zero_short", "R6", "libtfhe/tgsw-functions.cpp", r"133s/p < kpl; ++p/p < kpl - 1; ++p/", "tGswEncryptZero leaves the last row unmasked before the key bit is added to it"),
  ("C17", "ks_row_unmasked", "R6", "libtfhe/lwe-keyswitch-functions.cpp", r"s/                lweSymEncryptWithExternalNoise(&result->ks\[i\]\[j\]\[h\], mess, noise\[index\], alpha, out_key);/                lweNoiselessTrivial(\&result->ks[i][j][h], mess + dtot32(noise[index]), out_key->params);/", "key-switching rows carry message + noise but no mask"),
+ ("C16", "acc_not_initialised", "R7", "libtfhe/lwe-bootstrapping-functions-fft.cpp", r"s/^    tLweNoiselessTrivial(acc, testvectbis, accum_params);$/    (void) testvectbis;/", "the accumulator of the FFT blind rotation is used without being initialised (uninitialised heap read)"),
+ ("C16", "gate_temp_not_initialised", "R7", "libtfhe/boot-gates.cpp", r"0,/    lweNoiselessTrivial(temp_result, NandConst, in_out_params);/s//    temp_result->b = NandConst;/", "bootsNAND sets only b of its scratch sample: the mask coefficients are read uninitialised"),
  ("C20", "cpp_only_field", "R2", "include/lwesamples.h", r"s/^   LweSample(const LweParams\* params);/   int32_t cpp_only_tag;\n   LweSample(const LweParams* params);/", "a field visible to C++ only: C and C++ layouts of LweSample diverge"),
  ("C20", "no_export", "R3", ["include/lwe-functions.h", "libtfhe/lwe-functions.cpp"],
   [r"s/^EXPORT void lweClear(LweSample\* result, const LweParams\* params);/void lweClear(LweSample* result, const LweParams* params);/", r"s/^EXPORT void lweClear(LweSample\* result, const LweParams\* params){/void lweClear(LweSample* result, const LweParams* params){/"],
